@@ -1,7 +1,7 @@
 (* C15 -- Version order is total; a version change reschedules exactly its
    owner.  Property theorems only; proofs live in Proofs/. *)
 From DV Require Import Gen.VersionGen Proofs.VersionProofs.
-From DV Require Import Model.Sched Model.Build Gen.DiffGen Proofs.SchedC15.
+From DV Require Import Model.Sched Model.Build Gen.DiffGen Proofs.SchedBuild Proofs.SchedC15.
 From Coq Require Import ZArith Bool List.
 Import ListNotations.
 Open Scope Z_scope.
